@@ -24,7 +24,9 @@ MODES = {
 MOVED = ["1;35", "1;36", "1;34", "1;33", "2;35", "3;36", "38;5;208", "38;2;10;20;30;48;5;17", "1;4;9;38;5;99", "7;35",
          "35", "36;1", "48;5;52;38;5;231", "5;34", "8;33", "1;2;3;4;5;7;9;36",
          # bright colours (aixterm codes) as foreground and as background
-         "95", "30;103", "97;100", "1;93;104", "91;107", "90;101", "96;102", "94;105", "92;106", "30;47", "37;40"]
+         "95", "30;103", "97;100", "1;93;104", "91;107", "90;101", "96;102", "94;105", "92;106", "30;47", "37;40",
+         # attributes only, no colour (git's --color-moved=dimmed-zebra defaults; color.diff.oldMoved = reverse)
+         "2", "2;3", "7", "1", "3", "4;9"]
 
 
 _ATTR = {1: "bold", 2: "dim", 3: "italic", 4: "ul", 5: "blink", 7: "reverse", 8: "hidden", 9: "strike"}
@@ -158,7 +160,7 @@ def run(tier):
     L = lambda c, f=0, g=0, kd="": {"c": c, "f": f, "g": g, "kd": kd}
     mjobs = []
     for keep in (False, True):
-        for sgr in MOVED if tier == "thorough" else MOVED[::2] + MOVED[1::4]:
+        for sgr in MOVED if tier == "thorough" else MOVED[::2] + MOVED[1::4] + MOVED[-6:]:
             for cls in ("minus", "plus"):
                 mjobs.append((sgr, cls, keep, None))
     # map-styles: the moved line is shown in the style assigned to its input colours (both colour depths)
